@@ -122,6 +122,7 @@ class Inbound:
             if message.question[0].rdtype != self.rdtype:
                 raise dns.exception.FormError("wrong question rdatatype")
         answer_index = 0
+        final_soa_seen = False
         if self.soa_rdataset is None:
             #
             # This is the first message.  We're expecting an SOA at
@@ -193,8 +194,14 @@ class Inbound:
                     if self.incremental and self.serial != soa.serial:
                         raise dns.exception.FormError("unexpected end of IXFR sequence")
                     self.txn.replace(name, rdataset)
-                    self.txn.commit()
-                    self.txn = None
+                    #
+                    # Do not commit yet: anything after the final SOA in
+                    # this message is an error, and an error must not be
+                    # reported for a transfer that has been applied.  The
+                    # commit happens after the rest of the answer section
+                    # has been looked at.
+                    #
+                    final_soa_seen = True
                     self.done = True
                 else:
                     #
@@ -243,6 +250,10 @@ class Inbound:
                 self.txn.delete_exact(name, rdataset)
             else:
                 self.txn.add(name, rdataset)
+        if final_soa_seen:
+            assert self.txn is not None  # for mypy
+            self.txn.commit()
+            self.txn = None
         if self.is_udp and not self.done:
             #
             # This is a UDP IXFR and we didn't get to done, and we didn't
